@@ -221,26 +221,40 @@ Ltac word_unfold2 :=
   word_unfold;
   change (2 ^ 4) with 16 in *; change (2 ^ 28) with 268435456 in *; change (2 ^ 52) with 4503599627370496 in *.
 
+(* bottom-up elimination of `/` and `mod` by literal moduli: an innermost  t mod K  is replaced by t when lia proves
+   0 <= t < K; otherwise quotient and remainder become fresh variables constrained by the division equations.
+   Every lia call is small, and the script does not depend on how the source writes the lane body (it also proves
+   the `(s_hi << 32) - s_hi` form of the dead mds_cyclomul code path). *)
+Ltac no_divmod t :=
+  lazymatch t with
+  | context [_ mod _] => fail
+  | context [_ / _] => fail
+  | context [if _ then _ else _] => fail
+  | _ => idtac
+  end.
+Ltac dm_abstract t K :=
+  let q := fresh "q" in let r := fresh "r" in let Hq := fresh "Hdm" in
+  assert (Hq : t = K * (t / K) + t mod K /\ 0 <= t mod K < K)
+    by (split; [apply Z.div_mod; lia | apply Z.mod_pos_bound; lia]);
+  set (q := t / K) in *; set (r := t mod K) in *; clearbody q r.
+Ltac dm_step :=
+  match goal with
+  | |- context [?t mod ?K] =>
+      no_divmod t;
+      first [ let E := fresh in assert (E : t mod K = t) by (apply Z.mod_small; lia); rewrite !E; clear E
+            | dm_abstract t K ]
+  | |- context [?t / ?K] => no_divmod t; dm_abstract t K
+  end.
+
 Theorem mds_lane_spec a b : 0 <= a < 2 ^ 52 -> 0 <= b < 2 ^ 52 ->
   0 <= mds_lane (16 * a) (16 * b) < 2 ^ 64 /\
   (mds_lane (16 * a) (16 * b)) mod P = (a + 2 ^ 32 * b) mod P /\
   mds_lane_ok (16 * a) (16 * b) = true.
 Proof.
-  intros Ha Hb. unfold mds_lane, mds_lane_ok, P. word_unfold2.
-  assert (E1 : 16 * a / 16 = a) by lia. rewrite E1.
-  assert (E2 : (16 * b * 268435456) mod 340282366920938463463374607431768211456 = 4294967296 * b) by lia. rewrite E2.
-  assert (E3 : (a + 4294967296 * b) mod 340282366920938463463374607431768211456 = a + 4294967296 * b) by lia. rewrite E3.
-  set (s := a + 4294967296 * b).
-  assert (Hs : 0 <= s < 38685626227668133590597632) by (subst s; lia).
-  clearbody s. clear E1 E2 E3.
-  set (shi := (s / 18446744073709551616) mod 18446744073709551616).
-  set (slo := s mod 18446744073709551616).
-  assert (Hhi : 0 <= shi < 2097152 /\ s = shi * 18446744073709551616 + slo /\ 0 <= slo < 18446744073709551616) by (subst shi slo; lia).
-  clearbody shi slo.
-  assert (E4 : (shi * 4294967295) mod 18446744073709551616 = shi * 4294967295) by lia. rewrite E4.
-  destruct (18446744073709551616 <=? slo + shi * 4294967295) eqn:E; cbn [fst snd].
-  - repeat split; try lia.
-  - repeat split; try lia.
+  intros Ha Hb. unfold mds_lane, mds_lane_ok, P. word_unfold2. cbv zeta.
+  repeat dm_step.
+  repeat match goal with |- context [if ?c then _ else _] => destruct c eqn:? end; cbn [fst snd].
+  all: repeat split; lia.
 Qed.
 
 (* ================================================================ E. mds_generated on arbitrary u64 words *)
